@@ -89,13 +89,14 @@ static void body(void) {
     double f = (double)(spread / minsd) * (1 + 1e-9); for (int i = 0; i < n * p; i++) E0_[i] *= f; }
   for (int i = 0; i < n; i++) for (int j = 0; j < p; j++) X_[i * p + j] = E0_[i * p + j] + (offs ? OFFS[j % 4] : 0.0);
 
-  double delta = nipals_delta(n, PCACONVERGENCE);
+  double delta = nipals_delta(n, DOC_PCACONVERGENCE);
   char key[160], tk[160];
   snprintf(tk, sizeof tk, "nonterm|PCA|scaling=%d,spread=%g", scaling, spread);
+  H_INPUT_HASH = vx_hash_doubles(X_, (size_t)(n * p), (uint64_t)(scaling + 8 * a + 64 * mode));
   struct fit A; do_fit(&A, X_, n, p, scaling, a, nproc, tk, 1);
   int okA = (int)A.mod->scores->col == a && (int)A.mod->loadings->col == a && (int)A.mod->varexp->size == a && hm_allfinite(A.mod->scores) && hm_allfinite(A.mod->loadings) && hv_allfinite(A.mod->varexp);
   vx_check(okA, "shape-finite|PCA", "(%dx%d) scaling %d npc %d: wrong shape or non-finite model", n, p, scaling, a);
-  if (!okA) { vx_outcome(3); return; }
+  if (!okA) { vx_outcome(vx_hash_doubles(X_, (size_t)(n * p), (uint64_t)(3 + 16 * scaling))); return; }
   vx_require(A.lam[0] > 0);
   ld sig1 = sqrtl(A.lam[0]);
 
@@ -156,7 +157,7 @@ static void body(void) {
   struct fit B; do_fit(&B, XB_, n, p, scaling, a, nproc, tk, 0);
   int okB = (int)B.mod->scores->col == a && (int)B.mod->loadings->col == a && hm_allfinite(B.mod->scores) && hm_allfinite(B.mod->loadings) && hv_allfinite(B.mod->varexp);
   vx_check(okB, "shape-finite|PCA", "(%dx%d) scaling %d: transformed input gives wrong shape or non-finite model", n, p, scaling);
-  if (!okB) { vx_outcome(4); return; }
+  if (!okB) { vx_outcome(vx_hash_doubles(XB_, (size_t)(n * p), (uint64_t)(4 + 16 * scaling))); return; }
   for (int k = 0; k < a; k++) if (judged[k]) {
     /* expected loading = transformed loading of A */
     rmat *pe = rm_new(p, 1);
@@ -202,6 +203,6 @@ int main(int argc, char **argv) {
   vx_describe("alphabet", "X = U diag(s) V' + offsets, U'1=0, s_i = ratio^i, ratio in {.3,.6,.85}; overall scale so that the smallest column SD is in {0.02,1,100}; shapes {(6,3),(10,4),(8,8),(5,12),(30,6)} [+(60,25)]; scaling -1..5; 2 [4] instances; offsets {none, (1,-7.5,2.5,40) cyclic}; npc 1..3; nproc {1,3}; transformations: ALL row permutations for n<=6 (720 / 120), cyclic shifts + reversal otherwise; ALL column permutations for p<=5, cyclic + reversal otherwise; 6 Householder-product rotations (scaling -1, 0)");
   vx_describe("oracle", "reference = cyclic Jacobi (long double) on the Gram matrix of the library's preprocessed data; component k judged iff lambda_{j+1}/lambda_j <= 0.9 for all j<=k; sin angle(p_k,v_k) <= 5k*delta/(1-r)^2 + 1e3*eps*(n+p)*sigma_1/sigma_k, delta=sqrt(n*1e-10); scores within sigma_1*allowance; varexp within 100*(4 a s1 sk + a^2 s1^2 + 2 delta lambda_k)/trace; equivariance: twice the allowance, one sign per component shared by loadings and scores");
   vx_set_shard_depth(3);
-  vx_expect_outcomes(300);   /* low on purpose: a library that breaks every fit must surface as violations, not as a vacuity error */
+  vx_expect_outcomes(40);   /* low on purpose: a library that returns the same (e.g. all-zero) model for every input of a shape must surface as violations, not as a vacuity error */
   return vx_main(argc, argv, "C02", body);
 }
